@@ -180,7 +180,7 @@ Notes:
 """
   from numpy import seterr, inf
   if p == inf: return chebyshev(x,xp,pair=pair,dmin=dmin,axis=axis)
-  d = absolute_distance(x,xp,pair=pair,dmin=dmin)
+  d = absolute_distance(x,xp,pair=pair,dmin=dmin).astype(float)
   orig = seterr(over='raise', invalid='raise')
   try:
       d = (d**p).sum(axis=axis)**(1./p)
